@@ -455,6 +455,8 @@ class VarField(RawField):
         el1 = struct.unpack(self.order + self.typename, el1)[0]
         res = [el1]
         pos = offset + sz1
+        self._sz = pos - offset
+        self.count = len(res)
         while not self.terminate(el1,field=self):
             el1 = data[pos : pos + sz1]
             el1 = struct.unpack(self.order + self.typename, el1)[0]
@@ -472,6 +474,9 @@ class VarField(RawField):
         tn = self.typename
         if psize and tn=='P':
             tn = {4:'I',8:'Q',32:'I',64:'Q'}.get(psize,'P')
+        if isinstance(value, bytes):
+            # ('s' and 'c' elements are unpacked as a bytes string)
+            value = [value[i:i+1] for i in range(len(value))]
         res = [struct.pack(self.order + tn, v) for v in value]
         return b"".join(res)
 
